@@ -199,8 +199,10 @@ Print Assumptions C12_default_literal_plain.
    (lex_description_text, composed from read_block_complete / block_body_scan
    of C01 / C03), put in front of the definition's tokens (add_description).
    [desc_schema] (Proofs/SdlTextDescProofs.v): descriptions on types and
-   directive definitions that satisfy [desc_ok] -- printed by the options, no
-   double quote, source characters, read back by BlockStringValue (a one-line
+   directive definitions that satisfy [desc_ok] -- printed by the options,
+   source characters, scanned and read back by BlockStringValue as the
+   description ([desc_body_ok]; the classes below, with or without double
+   quotes, satisfy it) (a one-line
    description ending with a backslash is laid out in the multi-line form
    since /repo 6320d32, fixes/C12-07: ends_with_qb in the model); members
    carry no descriptions. *)
@@ -237,8 +239,50 @@ Theorem C12_description_lexes : forall body rest pos,
 Proof. exact lex_description_text. Qed.
 Print Assumptions C12_description_lexes.
 
-(* the two description classes of C12_description_roundtrip_partial / _block
-   are inside [desc_ok] *)
+(* in general: whatever body the scanner of C01 / C03 reads between the triple
+   quotes as [raw] ([scan_body]: escaped triple quotes unescaped), the token's
+   value is BlockStringValue of [raw]; a text with its triple quotes escaped
+   that does not end with a double quote or a backslash scans back to itself
+   (lex_escaped of C03) *)
+Theorem C12_description_lexes_escaped : forall body raw rest pos,
+  scan_body body raw ->
+  exists e, forall f,
+    Lexer.lex_from (S f) ((34 :: 34 :: 34 :: body ++ 34 :: 34 :: 34 :: rest)%N) pos
+    = Lexer.LT (Token.PTok Token.KBlockString (block_string_value raw) pos e) :: Lexer.lex_from f rest e.
+Proof. exact lex_description_raw. Qed.
+Print Assumptions C12_description_lexes_escaped.
+
+Theorem C12_description_escaped_scan : forall w : str,
+  w <> [] -> last w 0%N <> 34%N -> last w 0%N <> 92%N -> Forall SourceCharacter w ->
+  scan_body (escape_triple w) w.
+Proof. exact escaped_scan. Qed.
+Print Assumptions C12_description_escaped_scan.
+
+(* the description classes of C12_description_roundtrip_partial / _block
+   are inside [desc_ok]; so are one-line descriptions with double quotes *)
+Theorem C12_description_class_single_line_quotes : forall o desc,
+  po_descriptions o = true ->
+  forallb line_char desc = true -> blank desc = false -> length desc < 70 ->
+  last desc 0%N <> 34%N -> last desc 0%N <> 92%N -> Forall SourceCharacter desc ->
+  desc_ok o (Some desc).
+Proof. exact desc_ok_single_line_quotes. Qed.
+Print Assumptions C12_description_class_single_line_quotes.
+
+(* the block layout with double quotes on the lines (a one-line description
+   ending with a double quote is laid out this way, too): the body is the
+   escaped form of the indented lines, which end with the line break and the
+   indent in front of the closing quotes *)
+Theorem C12_description_class_block_quotes : forall o desc,
+  po_descriptions o = true -> desc <> [] ->
+  forallb qclean_line (split_nl desc) = true ->
+  forallb (fun l => Nat.leb (length l) 120) (split_nl desc) = true ->
+  hd [] (split_nl desc) <> [] -> last (split_nl desc) [] <> [] ->
+  (2 <= length (split_nl desc) \/ 70 <= length (hd [] (split_nl desc)) \/ ends_with_qb (hd [] (split_nl desc)) = true) ->
+  Forall SourceCharacter desc ->
+  desc_ok o (Some desc).
+Proof. exact desc_ok_block_quotes. Qed.
+Print Assumptions C12_description_class_block_quotes.
+
 Theorem C12_description_class_single_line : forall o desc,
   po_descriptions o = true ->
   forallb plain_char desc = true -> blank desc = false -> length desc < 70 ->
